@@ -199,6 +199,29 @@ def analyse33(ck):
         ok = len(lp) == 1 and P.param_path(lp[0]) == "self.0" and P.norm(z[0].args[0]) == ("fld", ("elem", lp[0]), "0") and not [c for c in circ.uncond_problems(z[0])]
         ok = ok and scrubs_in_place(prog, z[0], fd.body, 1)
     ob.add({"C33"}, ok, "TERM", "drop/felts-zeroizes-every-element", "SensitiveFelts::drop zeroizes the inner u64 of every element of self.0 (loop over the whole vector, no early exit), in place (through `iter_mut`-style mutable borrows, not copies)", z[0].loc if z else fd.loc0)
+    # the wrapper keeps the very buffer it is handed: the pre-sizing rule below ends at "moved into SensitiveFelts::new", so a
+    # conversion inside `new` that may reallocate (into_boxed_slice / shrink_to_fit / to_vec / collect) would free the caller's
+    # block unscrubbed behind it (seed C33d)
+    fnew = e2.MethodView(ck, r"sensitive::SensitiveFelts::new$", CIRC)
+    rt = P.norm(fnew.fr.return_term())
+    kept = isinstance(rt, tuple) and rt and rt[0] == "adt" and len(rt[3]) == 1 and P.norm(rt[3][0][1]) == fnew.param(1)
+    # (the term view reads conversions as the identity, so the by-value flow is followed in the MIR: no call consumes the parameter
+    # or a moved copy of it, or a `&mut` to it — a shared borrow, e.g. for a length assertion, is not a consumption)
+    owned = {1}
+    grew = True
+    while grew:
+        grew = False
+        for blk in fnew.body.blocks:
+            for st in blk["s"]:
+                d, r = st.get("d"), st.get("r") or {}
+                if d and not d["p"] and r.get("k") == "use" and _op_local(r.get("a") or {}) in owned and d["l"] not in owned:
+                    owned.add(d["l"])
+                    grew = True
+    touched = _derived_pointers(fnew.body, owned)     # the owned locals and every `&mut` into them (shrink_to_fit / reserve / push take `&mut self`)
+    consumers = [(bb, t) for bb, t in fnew.body.calls() if any(_op_local(a) in touched for a in t.get("args", []))]
+    kept = kept and not consumers
+    ob.add({"C33"}, kept, "TERM", "felts-new/keeps-buffer", "SensitiveFelts::new stores its argument itself (the wrapped value is the parameter, not the result of a conversion that may move the elements to another allocation)",
+           fnew.loc0, T.show(rt, maxdepth=4)[:300])
     # not clonable
     for ty in ("sensitive::Secret", "nullifier::Nullifier", "unspendable_account::UnspendableAccount", "inputs::PrivateCircuitInputs", "inputs::CircuitInputs"):
         hits = [i.get("trait_ref") for i in prog.impls_of(ty) if (i.get("trait") or "").rsplit("::", 1)[-1] in ("Clone", "Copy")]
